@@ -221,6 +221,8 @@ Definition app_head (h : string) : bool :=
   match alookup h interpreted_table with Some (HOp _) | None => true | _ => false end.
 Definition quant_head (h : string) : option bool :=
   match alookup h interpreted_table with Some (HQuant fa) => Some fa | _ => None end.
+Definition let_head (h : string) : bool :=
+  match alookup h interpreted_table with Some HLet => true | _ => false end.
 
 Fixpoint list_eqs (a b : list string) : bool :=
   match a, b with
@@ -236,13 +238,31 @@ Qed.
 Lemma list_eqs_refl a : list_eqs a a = true.
 Proof. induction a; cbn; [reflexivity | now rewrite String.eqb_refl]. Qed.
 
+(* one binding (v val) of a let: the name is a plain token, the value is in the fragment *)
+Definition binding_with (f : sexp -> bool) (b : sexp) : bool :=
+  match b with
+  | SList [Atom v; val] => negb (is_paren v) && f val
+  | _ => false
+  end.
+
 (* the fragment: atoms; applications of table operators / function names; quantifiers (binder list
-   not inspected: whatever the machine's scan makes of it); applications of an indexed identifier *)
+   not inspected: whatever the machine's scan makes of it); applications of an indexed identifier;
+   let with at least one binding *)
 Fixpoint simpleb (x : sexp) : bool :=
   match x with
   | Atom a => negb (is_paren a)
   | SList (Atom h :: rest) =>
       negb (is_paren h) &&
+      if let_head h then
+        match rest with
+        | [SList (b0 :: bs); body] =>
+            forallb (fun b => match b with
+                              | SList [Atom v; val] => negb (is_paren v) && simpleb val
+                              | _ => false
+                              end) (b0 :: bs) && simpleb body
+        | _ => false
+        end
+      else
       match quant_head h with
       | Some _ => match rest with [SList _; body] => simpleb body | _ => false end
       | None => app_head h && forallb simpleb rest
@@ -258,12 +278,29 @@ Definition elab_head (h : string) (s : pstate) : res item :=
   | Some _ => RErr EUnmodelled s
   end.
 
+(* the early binding of the let extension: the name is new in this let and means nothing outside *)
+Definition let_early (v : string) (vals : list (string * item)) (sb2 : pstate) : bool :=
+  negb (str_in v (map fst vals)) && match cache_get v sb2 with None => true | Some _ => false end.
+
 Section ElabList.
   Variable elab : sexp -> pstate -> res item.
   Fixpoint elab_list_with (l : list sexp) (s : pstate) : res (list item) :=
     match l with
     | [] => ROk [] s
     | y :: r => do i , s1 <- elab y s ;; do r' , s2 <- elab_list_with r s1 ;; ROk (i :: r') s2
+    end.
+  (* the bindings of a let; [st] has the tokens of the remaining bindings and the closing
+     parenthesis of the binding list in front *)
+  Fixpoint elab_bindings_with (bs : list sexp) (vals : list (string * item)) (early : list string)
+                              (st : pstate) {struct bs} : res (list string) :=
+    match bs with
+    | [] => do _ , st1 <- let_finish vals early (pop1 st) ;; ROk (map fst vals) st1
+    | SList [Atom v; val] :: r =>
+        do e , sb2 <- elab val (pop1 (pop1 st)) ;;                       (* "(" v *)
+        let is_early := let_early v vals sb2 in
+        let sb3 := if is_early then cache_bind v e sb2 else sb2 in
+        elab_bindings_with r (aset v e vals) (if is_early then v :: early else early) (pop1 sb3)   (* ")" *)
+    | _ => RErr EUnmodelled st
     end.
 End ElabList.
 
@@ -278,9 +315,33 @@ Fixpoint elab (x : sexp) (s : pstate) {struct x} : res item :=
       | [] => ROk [] st
       | y :: r => do i , st1 <- elab y st ;; do r' , st2 <- go r st1 ;; ROk (i :: r') st2
       end in
+  let fix gol (bs : list sexp) (vals : list (string * item)) (early : list string)
+              (st : pstate) {struct bs} : res (list string) :=
+      match bs with
+      | [] => do _ , st1 <- let_finish vals early (pop1 st) ;; ROk (map fst vals) st1
+      | SList [Atom v; val] :: r =>
+          do e , sb2 <- elab val (pop1 (pop1 st)) ;;
+          let is_early := let_early v vals sb2 in
+          let sb3 := if is_early then cache_bind v e sb2 else sb2 in
+          gol r (aset v e vals) (if is_early then v :: early else early) (pop1 sb3)
+      | _ => RErr EUnmodelled st
+      end in
   match x with
   | Atom a => atom a (pop1 s)
   | SList (Atom h :: rest) =>
+      if let_head h then
+        match rest with
+        | [SList bs; body] =>
+            match bs with
+            | [] => RErr EUnmodelled s
+            | _ :: _ =>
+                do names , sb <- gol bs [] [] (pop1 (pop1 (pop1 s))) ;;     (* "(" "let" "(" *)
+                do b , s2 <- elab body sb ;;
+                call IExitLet [IKeys names; b] (pop1 s2)
+            end
+        | _ => RErr EUnmodelled s
+        end
+      else
       match quant_head h with
       | Some fa =>
           match rest with
@@ -309,6 +370,7 @@ Fixpoint elab (x : sexp) (s : pstate) {struct x} : res item :=
   | SList [] => RErr EUnmodelled s
   end.
 Definition elab_list := elab_list_with elab.
+Definition elab_bindings := elab_bindings_with elab.
 
 Lemma elab_go l : forall st,
   (fix go (l : list sexp) (st : pstate) {struct l} : res (list item) :=
@@ -321,14 +383,36 @@ Proof.
   destruct (elab y st); [|reflexivity]. cbn [bind]. rewrite IH. reflexivity.
 Qed.
 
+Lemma elab_gol bs : forall vals early st,
+  (fix gol (bs : list sexp) (vals : list (string * item)) (early : list string)
+           (st : pstate) {struct bs} : res (list string) :=
+     match bs with
+     | [] => do _ , st1 <- let_finish vals early (pop1 st) ;; ROk (map fst vals) st1
+     | SList [Atom v; val] :: r =>
+         do e , sb2 <- elab val (pop1 (pop1 st)) ;;
+         let is_early := let_early v vals sb2 in
+         let sb3 := if is_early then cache_bind v e sb2 else sb2 in
+         gol r (aset v e vals) (if is_early then v :: early else early) (pop1 sb3)
+     | _ => RErr EUnmodelled st
+     end) bs vals early st = elab_bindings bs vals early st.
+Proof.
+  induction bs as [|b r IH]; intros vals early st; [reflexivity|].
+  cbn [elab_bindings elab_bindings_with].
+  destruct b as [a|[|[v|l1] [|val [|y l2]]]]; try reflexivity.
+Qed.
+
 Lemma app_head_not_quant h : app_head h = true -> quant_head h = None.
 Proof. unfold app_head, quant_head. destruct (alookup h interpreted_table) as [[]|]; try discriminate; reflexivity. Qed.
+Lemma app_head_not_let h : app_head h = true -> let_head h = false.
+Proof. unfold app_head, let_head. destruct (alookup h interpreted_table) as [[]|]; try discriminate; reflexivity. Qed.
+Lemma quant_head_not_let h fa : quant_head h = Some fa -> let_head h = false.
+Proof. unfold quant_head, let_head. destruct (alookup h interpreted_table) as [[]|]; try discriminate; reflexivity. Qed.
 
 Lemma elab_app h args s : app_head h = true ->
   elab (SList (Atom h :: args)) s =
   (do hi , s1 <- elab_head h (pop1 (pop1 s)) ;; do its , s2 <- elab_list args s1 ;; call hi its (pop1 s2)).
 Proof.
-  intros Hh. cbn [elab]. rewrite (app_head_not_quant h Hh).
+  intros Hh. cbn [elab]. rewrite (app_head_not_let h Hh), (app_head_not_quant h Hh).
   destruct (elab_head h (pop1 (pop1 s))) as [hi s1|e s1]; [|reflexivity]. cbn [bind]. now rewrite elab_go.
 Qed.
 Lemma elab_quant h fa bs body s : quant_head h = Some fa ->
@@ -338,7 +422,7 @@ Lemma elab_quant h fa bs body s : quant_head h = Some fa ->
    if check_toks s1 (List.length (flatten (SList bs))) sb then
      do b , s2 <- elab body sb ;; call IExitQuant [IQuant fa; IVars vrs; b] (pop1 s2)
    else RErr EUnmodelled sb).
-Proof. intros Hq. cbn [elab]. now rewrite Hq. Qed.
+Proof. intros Hq. cbn [elab]. now rewrite (quant_head_not_let h fa Hq), Hq. Qed.
 Lemma elab_indexed hd args s :
   elab (SList (SList hd :: args)) s =
   (let s1 := pop1 (pop1 (pop1 s)) in
@@ -351,12 +435,26 @@ Proof.
   destruct (check_toks _ _ s2); [|reflexivity].
   destruct (call th [] (pop1 s2)) as [hi s3|e s3]; [|reflexivity]. cbn [bind]. now rewrite elab_go.
 Qed.
+Lemma elab_let h b0 bs body s : let_head h = true ->
+  elab (SList [Atom h; SList (b0 :: bs); body]) s =
+  (do names , sb <- elab_bindings (b0 :: bs) [] [] (pop1 (pop1 (pop1 s))) ;;
+   do b , s2 <- elab body sb ;;
+   call IExitLet [IKeys names; b] (pop1 s2)).
+Proof. intros Hl. cbn [elab]. rewrite Hl. reflexivity. Qed.
 
-(* number of loop iterations the machine spends on x *)
+(* number of loop iterations the machine spends on x; a let spends the iterations of its body in
+   the loop that entered it, and those of the bound terms in nested calls of the same depth *)
 Fixpoint cost (x : sexp) : nat :=
   match x with
   | Atom _ => 1
   | SList (Atom h :: rest) =>
+      if let_head h then
+        match rest with
+        | [SList bs; body] =>
+            2 + (fold_right (fun b n => match b with SList [_; val] => cost val + n | _ => n end) 0 bs + cost body)
+        | _ => 2
+        end
+      else
       match quant_head h with
       | Some _ => match rest with [_; body] => 2 + cost body | _ => 2 end
       | None => 2 + fold_right (fun y n => cost y + n) 0 rest
@@ -365,6 +463,18 @@ Fixpoint cost (x : sexp) : nat :=
   | SList [] => 1
   end%nat.
 Definition costs (l : list sexp) : nat := fold_right (fun y n => cost y + n)%nat 0%nat l.
+Definition bcosts (bs : list sexp) : nat :=
+  fold_right (fun b n => match b with SList [_; val] => cost val + n | _ => n end)%nat 0%nat bs.
+
+Lemma cost_app h args : app_head h = true -> cost (SList (Atom h :: args)) = S (S (costs args)).
+Proof. intros Hh. cbn [cost]. now rewrite (app_head_not_let h Hh), (app_head_not_quant h Hh). Qed.
+Lemma cost_quant h fa bs body : quant_head h = Some fa -> cost (SList [Atom h; bs; body]) = S (S (cost body)).
+Proof. intros Hq. cbn [cost]. now rewrite (quant_head_not_let h fa Hq), Hq. Qed.
+Lemma cost_let h bs body : let_head h = true ->
+  cost (SList [Atom h; SList bs; body]) = S (S (bcosts bs + cost body)).
+Proof. intros Hl. cbn [cost]. now rewrite Hl. Qed.
+Lemma cost_indexed hd args : cost (SList (SList hd :: args)) = S (S (S (costs args))).
+Proof. reflexivity. Qed.
 
 Lemma is_paren_false a : is_paren a = false -> String.eqb a "(" = false /\ String.eqb a ")" = false.
 Proof. unfold is_paren. now intros H%orb_false_iff. Qed.
@@ -401,6 +511,8 @@ Lemma fuel_of_S s : exists m, fuel_of s = S m.
 Proof. unfold fuel_of. eauto. Qed.
 Lemma fuel_of_SS s t r : toks s = t :: r -> exists m, fuel_of s = S (S m).
 Proof. intros H. unfold fuel_of. rewrite H. cbn [List.length]. eexists. reflexivity. Qed.
+Lemma fuel_of_gt s : (List.length (toks s) < fuel_of s)%nat.
+Proof. unfold fuel_of. lia. Qed.
 
 Lemma skipn_app_len {A} (a b : list A) : skipn (List.length a) (a ++ b) = b.
 Proof. induction a; cbn; auto. Qed.
@@ -415,139 +527,393 @@ Proof.
   rewrite Ec. cbn [bind]. fold (after fuel' stk i s'). apply catch_stop_after.
 Qed.
 
+(* The machine on the tokens of x, with [cost x] iterations and [fuel'] more, does what [elab] does
+   and goes on with the result on the current frame.  It goes on with AT LEAST fuel' iterations:
+   the iterations that a let reserves for the nested calls reading its bound terms are still there
+   when the let is closed (e is their number). *)
 Definition machine_spec (x : sexp) : Prop :=
   forall fuel' stk s i s' rest,
     elab x s = ROk i s' -> toks s = flatten x ++ rest ->
-    get_expr (cost x + fuel') stk s = after fuel' stk i s' /\ toks s' = rest.
+    exists e, get_expr (cost x + fuel') stk s = after (fuel' + e) stk i s' /\ toks s' = rest.
 
 Lemma machine_list : forall args, Forall machine_spec args ->
   forall fuel' frame stk s its s' rest,
     elab_list args s = ROk its s' -> toks s = flat_map flatten args ++ rest ->
-    get_expr (costs args + fuel') (frame :: stk) s = get_expr fuel' ((rev its ++ frame) :: stk) s' /\
-    toks s' = rest.
+    exists e,
+      get_expr (costs args + fuel') (frame :: stk) s = get_expr (fuel' + e) ((rev its ++ frame) :: stk) s' /\
+      toks s' = rest.
 Proof.
   induction 1 as [|y r Hy _ IH]; intros fuel' frame stk s its s' rest He Ht.
-  - cbn in He. inversion He; subst. cbn in *. auto.
+  - cbn in He. inversion He; subst. cbn in *. exists 0%nat. now rewrite Nat.add_0_r.
   - cbn [elab_list elab_list_with] in He. apply bind_ok in He. destruct He as (i & s1 & E1 & He).
     apply bind_ok in He. destruct He as (r' & s2 & E2 & He). inversion He; subst. clear He.
     cbn [flat_map] in Ht. rewrite <- app_assoc in Ht.
-    destruct (Hy (costs r + fuel')%nat (frame :: stk) s i s1 _ E1 Ht) as [G1 T1].
+    destruct (Hy (costs r + fuel')%nat (frame :: stk) s i s1 _ E1 Ht) as (e1 & G1 & T1).
     cbn [costs fold_right]. fold (costs r). rewrite <- Nat.add_assoc, G1. cbn [after].
-    destruct (IH fuel' (i :: frame) stk s1 r' s' rest E2 T1) as [G2 T2].
-    rewrite G2. split; [|exact T2]. cbn [rev]. now rewrite <- app_assoc.
+    destruct (IH (fuel' + e1)%nat (i :: frame) stk s1 r' s' rest E2 T1) as (e2 & G2 & T2).
+    exists (e1 + e2)%nat.
+    replace (costs r + fuel' + e1)%nat with (costs r + (fuel' + e1))%nat by lia.
+    rewrite G2. split; [|exact T2]. cbn [rev]. rewrite <- app_assoc. cbn [app].
+    now replace (fuel' + e1 + e2)%nat with (fuel' + (e1 + e2))%nat by lia.
 Qed.
 
-Theorem machine_simple : forall x, simpleb x = true -> machine_spec x.
+(* ------------------------------------------------------------------------- the cases *)
+Lemma machine_atom a : is_paren a = false -> machine_spec (Atom a).
 Proof.
-  induction x as [a|l IH] using sexp_ind'; intros Hs fuel' stk s i s' rest He Ht.
-  - (* atom *)
-    cbn in Hs. apply negb_true_iff in Hs. cbn [elab] in He. cbn [flatten app] in Ht.
-    pose proof (atom_same _ _ _ _ He) as (Hs1 & _).
-    split; [|now rewrite Hs1, (toks_pop1 s a rest Ht)].
-    cbn [cost Nat.add get_expr]. rewrite (step_atom _ a rest stk s Ht Hs).
-    unfold handle_atom. rewrite He. cbn [bind]. fold (after fuel' stk i s').
-    apply catch_stop_after.
-  - destruct l as [|[h|hd] args]; try discriminate Hs.
-    + (* head is an atom *)
-      cbn [simpleb] in Hs. apply andb_true_iff in Hs. destruct Hs as [Hp Hs]. apply negb_true_iff in Hp.
-      destruct (is_paren_false h Hp) as [Hp1 _].
-      inversion IH as [|? ? _ IHargs]; subst.
-      cbn [flatten flat_map] in Ht. cbn [app] in Ht.
-      replace ((h :: flat_map flatten args) ++ [")"]) with (h :: flat_map flatten args ++ [")"]) in Ht by reflexivity.
-      cbn [app] in Ht. rewrite <- app_assoc in Ht. cbn [app] in Ht.
-      pose proof (toks_pop1 s _ _ Ht) as Ht1.
-      pose proof (toks_pop1 (pop1 s) _ _ Ht1) as Ht2.
-      destruct (quant_head h) as [fa|] eqn:Hq.
-      * (* quantifier *)
-        destruct args as [|[?|bs] [|body [|? ?]]]; try discriminate Hs.
-        rewrite (elab_quant h fa bs body s Hq) in He. cbv zeta in He.
-        apply bind_ok in He. destruct He as (vrs & sb & Eq & He).
-        destruct (check_toks (pop1 (pop1 s)) (List.length (flatten (SList bs))) sb) eqn:Hck; [|discriminate].
-        apply bind_ok in He. destruct He as (b & s2 & Eb & Ec).
-        unfold check_toks in Hck. apply list_eqs_eq in Hck. rewrite Ht2 in Hck.
-        cbn [flat_map] in Hck. rewrite <- !app_assoc in Hck. rewrite skipn_app_len in Hck.
-        cbn [app] in Hck.
-        inversion IHargs as [|? ? _ IHb]; subst. inversion IHb as [|? ? Hbody _]; subst.
-        replace (cost (SList [Atom h; SList bs; body]) + fuel')%nat with (S (cost body + S fuel'))%nat
-          by (cbn [cost]; rewrite Hq; lia).
-        cbn [get_expr]. unfold step at 1. rewrite (next_maybe_cons s _ _ Ht). cbn [bind].
-        change ("(" =? "(") with true. cbv iota.
-        destruct (fuel_of_S (pop1 s)) as [m ->]. cbn [opens].
-        rewrite (next_tok_cons (pop1 s) _ _ Ht1). cbn [bind]. rewrite Hp1.
-        unfold handle_head. unfold quant_head in Hq.
-        destruct (alookup h interpreted_table) as [[| |fa'| | |]|]; try discriminate Hq. inversion Hq; subst fa'.
-        rewrite handle_quant_scan, Eq. cbn [bind push_items push_item].
-        rewrite catch_stop_get_expr.
-        destruct (Hbody Hs (S fuel') ([IVars vrs; IQuant fa; IExitQuant] :: stk) sb b s2 (")" :: rest) Eb Hck) as [G T].
-        rewrite G. cbn [after].
-        pose proof (call_same _ _ _ _ _ Ec) as (Hs' & _).
-        apply (close_frame fuel' stk IExitQuant [IQuant fa; IVars vrs; b] s2 rest i s') in Ec; [|exact T].
-        cbn [rev app] in Ec. split; [exact Ec|]. now rewrite Hs', (toks_pop1 s2 _ _ T).
-      * (* application *)
-        apply andb_true_iff in Hs. destruct Hs as [Hh Hargs].
-        rewrite (elab_app h args s Hh) in He. apply bind_ok in He. destruct He as (hi & s1 & Eh & He).
-        apply bind_ok in He. destruct He as (its & s2 & El & Ec).
-        assert (Hspec : Forall machine_spec args).
-        { rewrite Forall_forall in *. intros y Hy. apply IHargs; [exact Hy|].
-          rewrite forallb_forall in Hargs. now apply Hargs. }
-        replace (cost (SList (Atom h :: args)) + fuel')%nat with (S (costs args + S fuel'))%nat
-          by (cbn [cost]; rewrite Hq; fold (costs args); lia).
-        cbn [get_expr]. unfold step at 1. rewrite (next_maybe_cons s _ _ Ht). cbn [bind].
-        change ("(" =? "(") with true. cbv iota.
-        destruct (fuel_of_S (pop1 s)) as [m ->]. cbn [opens].
-        rewrite (next_tok_cons (pop1 s) _ _ Ht1). cbn [bind]. rewrite Hp1.
-        assert (Hhead : handle_head (get_expr (costs args + S fuel')) h ([] :: stk) (pop1 (pop1 s)) =
-                        get_expr (costs args + S fuel') ([hi] :: stk) s1 /\ toks s1 = flat_map flatten args ++ ")" :: rest).
-        { unfold handle_head. unfold elab_head in Eh. unfold app_head in Hh.
-          destruct (alookup h interpreted_table) as [[| | | | |o]|]; try discriminate Hh.
-          - inversion Eh; subst. split; [reflexivity | exact Ht2].
-          - rewrite Eh. cbn [bind]. split; [reflexivity|].
-            pose proof (atom_same _ _ _ _ Eh) as (Hs1 & _). now rewrite Hs1. }
-        destruct Hhead as [Hhead Ht3]. rewrite Hhead.
-        destruct (machine_list args Hspec (S fuel') [hi] stk s1 its s2 (")" :: rest) El Ht3) as [G T].
-        rewrite catch_stop_get_expr, G.
-        pose proof (call_same _ _ _ _ _ Ec) as (Hs' & _).
-        split; [exact (close_frame fuel' stk hi its s2 rest i s' T Ec) | now rewrite Hs', (toks_pop1 s2 _ _ T)].
-    + (* head is an indexed identifier ((_ name idx ..) args) *)
-      destruct hd as [|[u|?] hd']; try discriminate Hs.
+  intros Hs fuel' stk s i s' rest He Ht. exists 0%nat. rewrite Nat.add_0_r.
+  cbn [elab] in He. cbn [flatten app] in Ht.
+  pose proof (atom_same _ _ _ _ He) as (Hs1 & _).
+  split; [|now rewrite Hs1, (toks_pop1 s a rest Ht)].
+  cbn [cost Nat.add get_expr]. rewrite (step_atom _ a rest stk s Ht Hs).
+  unfold handle_atom. rewrite He. cbn [bind]. fold (after fuel' stk i s').
+  apply catch_stop_after.
+Qed.
+
+Lemma toks_head h l rest : flatten (SList (Atom h :: l)) ++ rest = "(" :: h :: flat_map flatten l ++ ")" :: rest.
+Proof. cbn [flatten flat_map app]. rewrite <- app_assoc. reflexivity. Qed.
+
+Lemma machine_app h args : is_paren h = false -> app_head h = true ->
+  Forall machine_spec args -> machine_spec (SList (Atom h :: args)).
+Proof.
+  intros Hp Hh Hspec fuel' stk s i s' rest He Ht.
+  destruct (is_paren_false h Hp) as [Hp1 _].
+  rewrite toks_head in Ht.
+  pose proof (toks_pop1 s _ _ Ht) as Ht1.
+  pose proof (toks_pop1 (pop1 s) _ _ Ht1) as Ht2.
+  rewrite (elab_app h args s Hh) in He. apply bind_ok in He. destruct He as (hi & s1 & Eh & He).
+  apply bind_ok in He. destruct He as (its & s2 & El & Ec).
+  rewrite (cost_app h args Hh).
+  replace (S (S (costs args)) + fuel')%nat with (S (costs args + S fuel'))%nat by lia.
+  cbn [get_expr]. unfold step at 1. rewrite (next_maybe_cons s _ _ Ht). cbn [bind].
+  change ("(" =? "(") with true. cbv iota.
+  destruct (fuel_of_S (pop1 s)) as [m ->]. cbn [opens].
+  rewrite (next_tok_cons (pop1 s) _ _ Ht1). cbn [bind]. rewrite Hp1.
+  assert (Hhead : handle_head (get_expr (costs args + S fuel')) h ([] :: stk) (pop1 (pop1 s)) =
+                  get_expr (costs args + S fuel') ([hi] :: stk) s1 /\ toks s1 = flat_map flatten args ++ ")" :: rest).
+  { unfold handle_head. unfold elab_head in Eh. unfold app_head in Hh.
+    destruct (alookup h interpreted_table) as [[| | | | |o]|]; try discriminate Hh.
+    - inversion Eh; subst. split; [reflexivity | exact Ht2].
+    - rewrite Eh. cbn [bind]. split; [reflexivity|].
+      pose proof (atom_same _ _ _ _ Eh) as (Hs1 & _). now rewrite Hs1. }
+  destruct Hhead as [Hhead Ht3]. rewrite Hhead.
+  destruct (machine_list args Hspec (S fuel') [hi] stk s1 its s2 (")" :: rest) El Ht3) as (e & G & T).
+  rewrite catch_stop_get_expr, G. exists e.
+  pose proof (call_same _ _ _ _ _ Ec) as (Hs' & _).
+  split; [exact (close_frame (fuel' + e) stk hi its s2 rest i s' T Ec) | now rewrite Hs', (toks_pop1 s2 _ _ T)].
+Qed.
+
+Lemma machine_quant h fa bs body : is_paren h = false -> quant_head h = Some fa ->
+  machine_spec body -> machine_spec (SList [Atom h; SList bs; body]).
+Proof.
+  intros Hp Hq Hbody fuel' stk s i s' rest He Ht.
+  destruct (is_paren_false h Hp) as [Hp1 _].
+  rewrite toks_head in Ht.
+  pose proof (toks_pop1 s _ _ Ht) as Ht1.
+  pose proof (toks_pop1 (pop1 s) _ _ Ht1) as Ht2.
+  rewrite (elab_quant h fa bs body s Hq) in He. cbv zeta in He.
+  apply bind_ok in He. destruct He as (vrs & sb & Eq & He).
+  destruct (check_toks (pop1 (pop1 s)) (List.length (flatten (SList bs))) sb) eqn:Hck; [|discriminate].
+  apply bind_ok in He. destruct He as (b & s2 & Eb & Ec).
+  unfold check_toks in Hck. apply list_eqs_eq in Hck. rewrite Ht2 in Hck.
+  cbn [flat_map] in Hck. rewrite <- !app_assoc in Hck. rewrite skipn_app_len in Hck.
+  cbn [app] in Hck.
+  rewrite (cost_quant h fa (SList bs) body Hq).
+  replace (S (S (cost body)) + fuel')%nat with (S (cost body + S fuel'))%nat by lia.
+  cbn [get_expr]. unfold step at 1. rewrite (next_maybe_cons s _ _ Ht). cbn [bind].
+  change ("(" =? "(") with true. cbv iota.
+  destruct (fuel_of_S (pop1 s)) as [m ->]. cbn [opens].
+  rewrite (next_tok_cons (pop1 s) _ _ Ht1). cbn [bind]. rewrite Hp1.
+  unfold handle_head. unfold quant_head in Hq.
+  destruct (alookup h interpreted_table) as [[| |fa'| | |]|]; try discriminate Hq. inversion Hq; subst fa'.
+  rewrite handle_quant_scan, Eq. cbn [bind push_items push_item].
+  rewrite catch_stop_get_expr.
+  destruct (Hbody (S fuel') ([IVars vrs; IQuant fa; IExitQuant] :: stk) sb b s2 (")" :: rest) Eb Hck) as (e & G & T).
+  rewrite G. cbn [after Nat.add]. exists e.
+  pose proof (call_same _ _ _ _ _ Ec) as (Hs' & _).
+  apply (close_frame (fuel' + e) stk IExitQuant [IQuant fa; IVars vrs; b] s2 rest i s') in Ec; [|exact T].
+  cbn [rev app] in Ec. split; [exact Ec|]. now rewrite Hs', (toks_pop1 s2 _ _ T).
+Qed.
+
+Lemma machine_indexed hd' args :
+  Forall machine_spec args -> machine_spec (SList (SList (Atom "_" :: hd') :: args)).
+Proof.
+  intros Hspec fuel' stk s i s' rest He Ht.
+  rewrite elab_indexed in He. cbv zeta in He.
+  apply bind_ok in He. destruct He as (th & s2 & Eu & He).
+  destruct (check_toks (pop1 (pop1 (pop1 s))) (List.length (flat_map flatten (tl (Atom "_" :: hd')))) s2) eqn:Hck; [|discriminate].
+  apply bind_ok in He. destruct He as (hi & s3 & Eth & He).
+  apply bind_ok in He. destruct He as (its & s4 & El & Ec).
+  (* tokens *)
+  assert (Ht' : toks s = "(" :: "(" :: "_" :: flat_map flatten hd' ++ ")" :: flat_map flatten args ++ ")" :: rest).
+  { rewrite Ht. cbn [flatten flat_map app]. repeat (rewrite <- ?app_assoc; cbn [app]). reflexivity. }
+  pose proof (toks_pop1 s _ _ Ht') as Ht1.
+  pose proof (toks_pop1 (pop1 s) _ _ Ht1) as Ht2.
+  pose proof (toks_pop1 (pop1 (pop1 s)) _ _ Ht2) as Ht3.
+  unfold check_toks in Hck. apply list_eqs_eq in Hck. rewrite Ht3 in Hck. cbn [tl] in Hck.
+  rewrite skipn_app_len in Hck.
+  (* fuel *)
+  rewrite cost_indexed.
+  replace (S (S (S (costs args))) + fuel')%nat with (S (S (costs args + S fuel')))%nat by lia.
+  cbn [get_expr]. unfold step at 1. rewrite (next_maybe_cons s _ _ Ht'). cbn [bind].
+  change ("(" =? "(") with true. cbv iota.
+  destruct (fuel_of_SS (pop1 s) _ _ Ht1) as [m ->]. cbn [opens].
+  rewrite (next_tok_cons (pop1 s) _ _ Ht1). cbn [bind]. change ("(" =? "(") with true. cbv iota.
+  rewrite (next_tok_cons (pop1 (pop1 s)) _ _ Ht2). cbn [bind]. change ("_" =? "(") with false. cbv iota.
+  unfold handle_head. change (alookup "_" interpreted_table) with (Some HUnderscore).
+  rewrite (handle_underscore_item _ _ _ th s2 Eu). unfold push_then. cbn [push_item].
+  change (step (get_expr (costs args + S fuel')) ([th] :: [] :: stk) s2)
+    with (get_expr (S (costs args + S fuel')) ([th] :: [] :: stk) s2).
+  rewrite catch_stop_get_expr.
+  (* the closing parenthesis of the indexed identifier *)
+  pose proof (close_frame (costs args + S fuel') ([] :: stk) th [] s2 _ hi s3 Hck Eth) as Hcl.
+  cbn [rev app] in Hcl. rewrite Hcl. cbn [after].
+  pose proof (call_same _ _ _ _ _ Eth) as (Hs3 & _).
+  assert (T3 : toks s3 = flat_map flatten args ++ ")" :: rest) by (now rewrite Hs3, (toks_pop1 s2 _ _ Hck)).
+  destruct (machine_list args Hspec (S fuel') [hi] stk s3 its s4 (")" :: rest) El T3) as (e & G & T).
+  rewrite G. exists e.
+  pose proof (call_same _ _ _ _ _ Ec) as (Hs' & _).
+  split; [exact (close_frame (fuel' + e) stk hi its s4 rest i s' T Ec) | now rewrite Hs', (toks_pop1 s4 _ _ T)].
+Qed.
+
+(* ------------------------------------------------------------------------- let *)
+Lemma let_finish_same : forall vals early s u s', let_finish vals early s = ROk u s' -> same_toks s s'.
+Proof.
+  induction vals as [|[v e] r IH]; intros early s u s' H; cbn [let_finish] in H.
+  - inversion H. apply same_toks_refl.
+  - apply bind_ok in H. destruct H as (u1 & s1 & E1 & H).
+    assert (S1 : same_toks s s1).
+    { destruct (str_in v early); [eapply cache_unbind_same; eauto | inversion E1; apply same_toks_refl]. }
+    eapply same_toks_trans; [exact S1|]. eapply same_toks_trans; [apply (cache_bind_same v e)|]. eapply IH; eauto.
+Qed.
+
+(* a binding (v val) whose value the machine reads as [elab] does *)
+Definition binding_spec (b : sexp) : Prop :=
+  match b with
+  | SList [Atom v; val] => is_paren v = false /\ machine_spec val
+  | _ => False
+  end.
+
+Lemma app_cons_nonempty {A} (l : list A) x r : exists c t, l ++ x :: r = c :: t.
+Proof. destruct l; cbn; eauto. Qed.
+Lemma length_flat_map_flatten bs : (List.length bs <= List.length (flat_map flatten bs))%nat.
+Proof.
+  induction bs as [|b r IH]; [cbn; lia|]. cbn [flat_map List.length]. rewrite app_length.
+  assert (1 <= List.length (flatten b))%nat by (destruct b; cbn; lia). lia.
+Qed.
+
+(* the loop of _enter_let over the bindings bs: every bound term is read by a nested call of the
+   machine with the iterations f of the loop that entered the let (enough for each of them), then
+   the loop goes on, with the SAME f, behind the binding list *)
+Lemma let_bindings_elab f stk : forall bs, Forall binding_spec bs ->
+  forall k vals early st names sb rest,
+    elab_bindings bs vals early st = ROk names sb ->
+    toks st = flat_map flatten bs ++ ")" :: rest ->
+    (bcosts bs <= f)%nat -> (List.length bs < k)%nat ->
+    let_bindings (get_expr f) k stk (hd "" (toks st)) vals early (pop1 st) =
+      match push_items [IExitLet; IKeys names] stk with
+      | Some stk' => get_expr f stk' sb
+      | None => RErr EOther sb
+      end
+    /\ toks sb = rest.
+Proof.
+  induction 1 as [|b r Hb _ IH]; intros k vals early st names sb rest He Ht Hf Hk.
+  - cbn [flat_map app] in Ht. rewrite Ht. cbn [hd].
+    destruct k as [|k]; [cbn in Hk; lia|]. cbn [let_bindings]. change (")" =? ")") with true. cbv iota.
+    cbn [elab_bindings elab_bindings_with] in He. apply bind_ok in He. destruct He as (u & st1 & Ef & He).
+    inversion He; subst. clear He. rewrite Ef. cbn [bind]. split; [reflexivity|].
+    pose proof (let_finish_same _ _ _ _ _ Ef) as (Hs1 & _). now rewrite Hs1, (toks_pop1 st _ _ Ht).
+  - destruct b as [a|[|[v|l1] [|val [|y l2]]]]; try contradiction. destruct Hb as [Hv Hval].
+    destruct (is_paren_false v Hv) as [Hv1 Hv2].
+    assert (Ht' : toks st = "(" :: v :: flatten val ++ ")" :: flat_map flatten r ++ ")" :: rest).
+    { rewrite Ht. cbn [flat_map flatten app]. repeat (rewrite <- ?app_assoc; cbn [app]). reflexivity. }
+    rewrite Ht'. cbn [hd].
+    pose proof (toks_pop1 st _ _ Ht') as Ht1.
+    pose proof (toks_pop1 (pop1 st) _ _ Ht1) as Ht2.
+    destruct k as [|k]; [cbn in Hk; lia|]. cbn [let_bindings].
+    change ("(" =? ")") with false. change ("(" =? "(") with true. cbn [negb]. cbv iota.
+    unfold parse_atom at 1. rewrite (next_tok_cons (pop1 st) _ _ Ht1). cbn [bind]. rewrite Hv1, Hv2. cbn [orb]. cbv iota. cbn [bind].
+    cbn [elab_bindings elab_bindings_with] in He. apply bind_ok in He. destruct He as (e & sb2 & Ev & He). cbv zeta in He.
+    fold (elab_bindings r) in He.
+    (* the nested call *)
+    assert (Hfv : (cost val <= f)%nat) by (cbn [bcosts fold_right] in Hf; lia).
+    destruct (Hval (f - cost val)%nat [] (pop1 (pop1 st)) e sb2 _ Ev Ht2) as (e0 & G & T).
+    replace (cost val + (f - cost val))%nat with f in G by lia. cbn [after] in G.
+    rewrite G. unfold not_none at 1. cbn [bind].
+    fold (let_early v vals sb2).
+    (* the closing parenthesis of the binding and the next token *)
+    set (sb3 := if let_early v vals sb2 then cache_bind v e sb2 else sb2) in *.
+    assert (T3 : toks sb3 = ")" :: flat_map flatten r ++ ")" :: rest).
+    { unfold sb3. destruct (let_early v vals sb2); [|exact T]. exact T. }
+    unfold consume_closing at 1. rewrite (next_tok_cons sb3 _ _ T3). cbn [bind]. change (")" =? ")") with true. cbv iota. cbn [bind].
+    pose proof (toks_pop1 sb3 _ _ T3) as T4.
+    destruct (app_cons_nonempty (flat_map flatten r) ")" rest) as (c & tl' & Hc).
+    rewrite Hc in T4. rewrite (next_tok_cons (pop1 sb3) _ _ T4). cbn [bind].
+    assert (Hf' : (bcosts r <= f)%nat) by (cbn [bcosts fold_right] in Hf; fold (bcosts r) in Hf; lia).
+    assert (Hk' : (List.length r < k)%nat) by (cbn [List.length] in Hk; lia).
+    rewrite <- Hc in T4.
+    destruct (IH k (aset v e vals) (if let_early v vals sb2 then v :: early else early) (pop1 sb3) names sb rest He T4 Hf' Hk')
+      as [G2 T5].
+    rewrite T4, Hc in G2. cbn [hd] in G2. split; [exact G2 | exact T5].
+Qed.
+
+Lemma machine_let h b0 bs body : is_paren h = false -> let_head h = true ->
+  Forall binding_spec (b0 :: bs) -> machine_spec body ->
+  machine_spec (SList [Atom h; SList (b0 :: bs); body]).
+Proof.
+  intros Hp Hl Hbs Hbody fuel' stk s i s' rest He Ht.
+  destruct (is_paren_false h Hp) as [Hp1 _].
+  set (bl := b0 :: bs) in *.
+  assert (Ht' : toks s = "(" :: h :: "(" :: flat_map flatten bl ++ ")" :: flatten body ++ ")" :: rest).
+  { rewrite Ht. cbn [flatten flat_map app]. repeat (rewrite <- ?app_assoc; cbn [app]). reflexivity. }
+  pose proof (toks_pop1 s _ _ Ht') as Ht1.
+  pose proof (toks_pop1 (pop1 s) _ _ Ht1) as Ht2.
+  pose proof (toks_pop1 (pop1 (pop1 s)) _ _ Ht2) as Ht3.
+  unfold bl in He. rewrite (elab_let h b0 bs body s Hl) in He. fold bl in He.
+  apply bind_ok in He. destruct He as (names & sb & Eb & He).
+  apply bind_ok in He. destruct He as (b & s2 & Ebody & Ec).
+  rewrite (cost_let h bl body Hl).
+  set (f := (bcosts bl + (cost body + S fuel'))%nat).
+  replace (S (S (bcosts bl + cost body)) + fuel')%nat with (S f) by (unfold f; lia).
+  cbn [get_expr]. unfold step at 1. rewrite (next_maybe_cons s _ _ Ht'). cbn [bind].
+  change ("(" =? "(") with true. cbv iota.
+  destruct (fuel_of_S (pop1 s)) as [m ->]. cbn [opens].
+  rewrite (next_tok_cons (pop1 s) _ _ Ht1). cbn [bind]. rewrite Hp1.
+  unfold handle_head. unfold let_head in Hl.
+  destruct (alookup h interpreted_table) as [[| | | | |]|]; try discriminate Hl.
+  unfold handle_let.
+  unfold consume_opening at 1. rewrite (next_maybe_cons (pop1 (pop1 s)) _ _ Ht2). cbn [bind].
+  change ("(" =? "(") with true. cbv iota. cbn [bind].
+  (* the first binding opens *)
+  assert (Hopen : exists t, toks (pop1 (pop1 (pop1 s))) = "(" :: t).
+  { rewrite Ht3. unfold bl. inversion Hbs as [|? ? Hb0 _]; subst.
+    destruct b0 as [a|l0]; [contradiction|]. cbn [flat_map flatten app]. eauto. }
+  destruct Hopen as (t0 & Hopen).
+  unfold consume_opening at 1. rewrite (next_maybe_cons _ _ _ Hopen). cbn [bind].
+  change ("(" =? "(") with true. cbv iota. cbn [bind].
+  assert (Hk : (List.length bl < fuel_of (pop1 (pop1 (pop1 (pop1 s)))))%nat).
+  { pose proof (fuel_of_gt (pop1 (pop1 (pop1 (pop1 s))))) as Hg.
+    rewrite (toks_pop1 _ _ _ Hopen) in Hg.
+    assert (Hlen : List.length (toks (pop1 (pop1 (pop1 s)))) = S (List.length t0)) by (now rewrite Hopen).
+    rewrite Ht3, app_length in Hlen. cbn [List.length] in Hlen.
+    pose proof (length_flat_map_flatten bl). lia. }
+  assert (Hf : (bcosts bl <= f)%nat) by (unfold f; lia).
+  destruct (let_bindings_elab f ([] :: stk) bl Hbs _ [] [] (pop1 (pop1 (pop1 s))) names sb _ Eb Ht3 Hf Hk) as [G T].
+  rewrite Hopen in G. cbn [hd] in G. rewrite G. cbn [push_items push_item].
+  rewrite catch_stop_get_expr.
+  (* the body and the closing parenthesis *)
+  unfold f.
+  replace (bcosts bl + (cost body + S fuel'))%nat with (cost body + S (fuel' + bcosts bl))%nat by lia.
+  destruct (Hbody (S (fuel' + bcosts bl)) ([IKeys names; IExitLet] :: stk) sb b s2 (")" :: rest) Ebody T) as (e & G2 & T2).
+  rewrite G2. cbn [after Nat.add]. exists (bcosts bl + e)%nat.
+  pose proof (call_same _ _ _ _ _ Ec) as (Hs' & _).
+  apply (close_frame (fuel' + bcosts bl + e) stk IExitLet [IKeys names; b] s2 rest i s') in Ec; [|exact T2].
+  cbn [rev app] in Ec. split; [|now rewrite Hs', (toks_pop1 s2 _ _ T2)].
+  now replace (fuel' + (bcosts bl + e))%nat with (fuel' + bcosts bl + e)%nat by lia.
+Qed.
+
+(* ------------------------------------------------------------------------- the fragment
+   by induction on the size of the s-expression: the bound terms of a let are not direct
+   components of the let *)
+Fixpoint ssize (x : sexp) : nat :=
+  match x with
+  | Atom _ => 1
+  | SList l => S (fold_right (fun y n => ssize y + n) 0 l)
+  end%nat.
+Lemma ssize_in y l : In y l -> (ssize y <= fold_right (fun y n => ssize y + n) 0 l)%nat.
+Proof.
+  induction l as [|z r IH]; [contradiction|]. intros [->|H]; cbn [fold_right]; [lia|]. specialize (IH H). lia.
+Qed.
+
+Lemma machine_simple_size : forall n x, (ssize x <= n)%nat -> simpleb x = true -> machine_spec x.
+Proof.
+  induction n as [|n IHn]; intros x Hn Hs.
+  { destruct x; cbn in Hn; lia. }
+  destruct x as [a|l].
+  - apply machine_atom. cbn in Hs. now apply negb_true_iff in Hs.
+  - assert (Hsub : forall y, In y l -> simpleb y = true -> machine_spec y).
+    { intros y Hy. apply IHn. pose proof (ssize_in y l Hy). cbn [ssize] in Hn. lia. }
+    destruct l as [|[h|hd] args]; try discriminate Hs.
+    + cbn [simpleb] in Hs. apply andb_true_iff in Hs. destruct Hs as [Hp Hs]. apply negb_true_iff in Hp.
+      destruct (let_head h) eqn:Hl.
+      * (* let *)
+        destruct args as [|[?|[|b0 bs]] [|body [|? ?]]]; try discriminate Hs.
+        apply andb_true_iff in Hs. destruct Hs as [Hbs Hbody].
+        apply machine_let; [exact Hp | exact Hl | | apply Hsub; [cbn; auto | exact Hbody]].
+        apply Forall_forall. intros bd Hin. rewrite forallb_forall in Hbs. specialize (Hbs bd Hin).
+        destruct bd as [a|[|[v|l1] [|val [|y l2]]]]; try discriminate Hbs.
+        apply andb_true_iff in Hbs. destruct Hbs as [Hv Hval]. apply negb_true_iff in Hv.
+        split; [exact Hv|]. apply IHn; [|exact Hval].
+        pose proof (ssize_in _ _ Hin) as Hsz. cbn [ssize fold_right] in Hsz, Hn. lia.
+      * destruct (quant_head h) as [fa|] eqn:Hq.
+        -- destruct args as [|[?|bs] [|body [|? ?]]]; try discriminate Hs.
+           apply (machine_quant h fa bs body Hp Hq). apply Hsub; [cbn; auto | exact Hs].
+        -- apply andb_true_iff in Hs. destruct Hs as [Hh Hargs].
+           apply (machine_app h args Hp Hh). apply Forall_forall. intros y Hy.
+           apply Hsub; [now right|]. rewrite forallb_forall in Hargs. now apply Hargs.
+    + destruct hd as [|[u|?] hd']; try discriminate Hs.
       cbn [simpleb] in Hs. apply andb_true_iff in Hs. destruct Hs as [Hu Hargs]. apply String.eqb_eq in Hu. subst u.
-      inversion IH as [|? ? _ IHargs]; subst.
-      rewrite elab_indexed in He. cbv zeta in He.
-      apply bind_ok in He. destruct He as (th & s2 & Eu & He).
-      destruct (check_toks (pop1 (pop1 (pop1 s))) (List.length (flat_map flatten (tl (Atom "_" :: hd')))) s2) eqn:Hck; [|discriminate].
-      apply bind_ok in He. destruct He as (hi & s3 & Eth & He).
-      apply bind_ok in He. destruct He as (its & s4 & El & Ec).
-      assert (Hspec : Forall machine_spec args).
-      { rewrite Forall_forall in *. intros y Hy. apply IHargs; [exact Hy|].
-        rewrite forallb_forall in Hargs. now apply Hargs. }
-      (* tokens *)
-      assert (Ht' : toks s = "(" :: "(" :: "_" :: flat_map flatten hd' ++ ")" :: flat_map flatten args ++ ")" :: rest).
-      { rewrite Ht. cbn [flatten flat_map app]. repeat (rewrite <- ?app_assoc; cbn [app]). reflexivity. }
-      pose proof (toks_pop1 s _ _ Ht') as Ht1.
-      pose proof (toks_pop1 (pop1 s) _ _ Ht1) as Ht2.
-      pose proof (toks_pop1 (pop1 (pop1 s)) _ _ Ht2) as Ht3.
-      unfold check_toks in Hck. apply list_eqs_eq in Hck. rewrite Ht3 in Hck. cbn [tl] in Hck.
-      rewrite skipn_app_len in Hck.
-      (* fuel *)
-      replace (cost (SList (SList (Atom "_" :: hd') :: args)) + fuel')%nat with (S (S (costs args + S fuel')))%nat
-        by (cbn [cost]; fold (costs args); lia).
-      cbn [get_expr]. unfold step at 1. rewrite (next_maybe_cons s _ _ Ht'). cbn [bind].
-      change ("(" =? "(") with true. cbv iota.
-      destruct (fuel_of_SS (pop1 s) _ _ Ht1) as [m ->]. cbn [opens].
-      rewrite (next_tok_cons (pop1 s) _ _ Ht1). cbn [bind]. change ("(" =? "(") with true. cbv iota.
-      rewrite (next_tok_cons (pop1 (pop1 s)) _ _ Ht2). cbn [bind]. change ("_" =? "(") with false. cbv iota.
-      unfold handle_head. change (alookup "_" interpreted_table) with (Some HUnderscore).
-      rewrite (handle_underscore_item _ _ _ th s2 Eu). unfold push_then. cbn [push_item].
-      change (step (get_expr (costs args + S fuel')) ([th] :: [] :: stk) s2)
-        with (get_expr (S (costs args + S fuel')) ([th] :: [] :: stk) s2).
-      rewrite catch_stop_get_expr.
-      (* the closing parenthesis of the indexed identifier *)
-      pose proof (close_frame (costs args + S fuel') ([] :: stk) th [] s2 _ hi s3 Hck Eth) as Hcl.
-      cbn [rev app] in Hcl. rewrite Hcl. cbn [after].
-      pose proof (call_same _ _ _ _ _ Eth) as (Hs3 & _).
-      assert (T3 : toks s3 = flat_map flatten args ++ ")" :: rest) by (now rewrite Hs3, (toks_pop1 s2 _ _ Hck)).
-      destruct (machine_list args Hspec (S fuel') [hi] stk s3 its s4 (")" :: rest) El T3) as [G T].
-      rewrite G.
-      pose proof (call_same _ _ _ _ _ Ec) as (Hs' & _).
-      split; [exact (close_frame fuel' stk hi its s4 rest i s' T Ec) | now rewrite Hs', (toks_pop1 s4 _ _ T)].
+      apply machine_indexed. apply Forall_forall. intros y Hy.
+      apply Hsub; [now right|]. rewrite forallb_forall in Hargs. now apply Hargs.
+Qed.
+
+(* the iterations never exceed the tokens *)
+Lemma costs_le l : Forall (fun x => (cost x <= List.length (flatten x))%nat) l ->
+  (costs l <= List.length (flat_map flatten l))%nat.
+Proof.
+  induction 1 as [|y r Hy _ IHr]; [cbn; lia|]. cbn [costs fold_right flat_map]. fold (costs r).
+  rewrite app_length. lia.
+Qed.
+Lemma bcosts_le bs :
+  (forall v val, In (SList [v; val]) bs -> (cost val <= List.length (flatten val))%nat) ->
+  (bcosts bs <= List.length (flat_map flatten bs))%nat.
+Proof.
+  induction bs as [|b r IH]; intros H; [cbn; lia|].
+  assert (Hr : (bcosts r <= List.length (flat_map flatten r))%nat) by (apply IH; intros v val Hin; apply (H v); now right).
+  cbn [bcosts fold_right flat_map]. fold (bcosts r). rewrite app_length.
+  destruct b as [a|[|v [|val [|y l2]]]]; try lia.
+  pose proof (H v val (or_introl eq_refl)) as Hv.
+  cbn [flatten flat_map List.length]. rewrite !app_length. cbn [List.length]. lia.
+Qed.
+Lemma cost_le_size : forall n x, (ssize x <= n)%nat -> (cost x <= List.length (flatten x))%nat.
+Proof.
+  induction n as [|n IHn]; intros x Hn.
+  { destruct x; cbn in Hn; lia. }
+  destruct x as [a|l]; [cbn; lia|].
+  assert (Hsub : forall y, In y l -> (cost y <= List.length (flatten y))%nat).
+  { intros y Hy. apply IHn. pose proof (ssize_in y l Hy). cbn [ssize] in Hn. lia. }
+  destruct l as [|[h|hd] rest].
+  - cbn. lia.
+  - assert (Hc : (costs rest <= List.length (flat_map flatten rest))%nat).
+    { apply costs_le, Forall_forall. intros y Hy. apply Hsub. now right. }
+    cbn [cost flatten flat_map List.length]. rewrite !app_length. cbn [List.length].
+    destruct (let_head h).
+    + destruct rest as [|[?|bs] [|body [|? ?]]]; try lia.
+      assert (Hb : (bcosts bs <= List.length (flat_map flatten bs))%nat).
+      { apply bcosts_le. intros v val Hin. apply IHn.
+        pose proof (ssize_in _ _ Hin) as Hsz. cbn [ssize fold_right] in Hsz, Hn. lia. }
+      assert (Hbody : (cost body <= List.length (flatten body))%nat) by (apply Hsub; cbn; auto).
+      fold (bcosts bs). cbn [flat_map flatten]. rewrite !app_length. cbn [List.length]. rewrite !app_length. cbn [List.length]. lia.
+    + destruct (quant_head h).
+      * destruct rest as [|b0 [|body [|? ?]]]; try lia.
+        assert (Hbody : (cost body <= List.length (flatten body))%nat) by (apply Hsub; cbn; auto).
+        cbn [flat_map]. rewrite !app_length. cbn [List.length]. lia.
+      * fold (costs rest). lia.
+  - assert (Hc : (costs rest <= List.length (flat_map flatten rest))%nat).
+    { apply costs_le, Forall_forall. intros y Hy. apply Hsub. now right. }
+    cbn [cost]. fold (costs rest). cbn [flatten flat_map List.length]. rewrite !app_length.
+    cbn [List.length]. fold (flat_map flatten hd). rewrite !app_length. cbn [List.length]. lia.
+Qed.
+Lemma cost_le x : (cost x <= List.length (flatten x))%nat.
+Proof. exact (cost_le_size (ssize x) x (le_n _)). Qed.
+
+Theorem machine_simple : forall x, simpleb x = true -> machine_spec x.
+Proof. intros x. exact (machine_simple_size (ssize x) x (le_n _)). Qed.
+
+(* a whole expression (empty stack): the surplus of iterations does not matter *)
+Corollary machine_simple_top x : simpleb x = true ->
+  forall k s i s' rest, elab x s = ROk i s' -> toks s = flatten x ++ rest ->
+    get_expr (cost x + k) [] s = ROk (Some i) s' /\ toks s' = rest.
+Proof.
+  intros Hs k s i s' rest He Ht. destruct (machine_simple x Hs k [] s i s' rest He Ht) as (e & G & T).
+  split; [exact G | exact T].
 Qed.
